@@ -7,6 +7,7 @@
 #include <signal.h>
 #include <unistd.h>
 #include <algorithm>
+#include <array>
 #include <atomic>
 #include <limits>
 #include <mutex>
@@ -27,6 +28,7 @@ static void onAlarm(int) {
 struct Rec {
   std::mutex m;
   std::vector<std::pair<long long, long long>> chunks;      // as signed 64 (values of unsigned 64-bit types > 2^63 excluded)
+  std::vector<const void*> sptr;                            // the states element each invocation was given (same order as chunks)
   std::atomic<int> running{0};
   std::atomic<int> maxRunning{0};
   std::atomic<int> stateClash{0};
@@ -40,7 +42,7 @@ struct St8 {
 };
 
 static dispenso::ThreadPool& poolOf(int n) {
-  static std::unique_ptr<dispenso::ThreadPool> pools[6];
+  static std::unique_ptr<dispenso::ThreadPool> pools[32];
   if (!pools[n]) pools[n].reset(new dispenso::ThreadPool((size_t)n));
   return *pools[n];
 }
@@ -67,7 +69,7 @@ static void body(Rec& rec, St8* st, T s, T e) {
   int m = rec.maxRunning.load();
   while (r > m && !rec.maxRunning.compare_exchange_weak(m, r)) {}
   if (rec.spinUs) { auto t0 = std::chrono::steady_clock::now(); while (std::chrono::steady_clock::now() - t0 < std::chrono::microseconds(rec.spinUs)) {} }
-  { std::lock_guard<std::mutex> lk(rec.m); rec.chunks.push_back({(long long)s, (long long)e}); }
+  { std::lock_guard<std::mutex> lk(rec.m); rec.chunks.push_back({(long long)s, (long long)e}); rec.sptr.push_back(st); }
   rec.running.fetch_sub(1);
   if (st) st->inUse.fetch_sub(1);
 }
@@ -116,7 +118,9 @@ static void runCfg(const Cfg<T>& c, const char* tname, int bits, int sg) {
   Rec rec;
   rec.spinUs = (gProp == "C48" || gProp == "C14") ? 30 : 0;
   std::vector<St8> states;
-  if (c.stateful && c.reuseState) states.resize(1 + (size_t)(c.maxThreads % 3));
+  if (c.stateful && c.reuseState) states.resize((size_t)((c.maxThreads + (uint32_t)c.g) % 7));   // 0..6 elements to be reused
+  else if (c.stateful && (c.minItems & 1)) states.resize(3);                                     // must be discarded (reuse off)
+  const size_t prevStates = states.size();
   std::snprintf(gLast, sizeof gLast, "type=%s start=%lld stop=%lld chunk=%d maxThreads=%u wait=%d minItems=%u g=%u pool=%d nested=%d cts=%d stateful=%d worker=%d",
                 tname, (long long)c.start, (long long)c.stop, c.chunkMode, c.maxThreads, c.wait, c.minItems, c.g, c.pool, c.nested, c.useCts, c.stateful, c.fromWorker);
   alarm(25);
@@ -152,6 +156,21 @@ static void runCfg(const Cfg<T>& c, const char* tname, int bits, int sg) {
   if (gProp == "C14" && c.stateful) {
     if (rec.stateClash.load()) std::printf("PFAIL parallel_for used one state object from two invocations at once | %s\n", gLast);
     if (hi > lo && states.empty()) std::printf("PFAIL parallel_for left the states container empty | %s\n", gLast);
+    // chunk -> index of the states element it was given (pointer identity), compared with the execution model
+    std::vector<std::array<long long, 3>> tri;
+    bool outside = false;
+    for (size_t i = 0; i < rec.chunks.size(); ++i) {
+      const St8* p = static_cast<const St8*>(rec.sptr[i]);
+      long long idx = (states.empty() || p < states.data() || p >= states.data() + states.size()) ? -1 : (long long)(p - states.data());
+      if (idx < 0) outside = true;
+      tri.push_back({rec.chunks[i].first, rec.chunks[i].second, idx});
+    }
+    if (outside) std::printf("PFAIL parallel_for passed a state object that is not an element of the states container | %s\n", gLast);
+    std::sort(tri.begin(), tri.end());
+    std::string ti;
+    for (auto& t : tri) ti += " " + std::to_string(t[0]) + " " + std::to_string(t[1]) + " " + std::to_string(t[2]);
+    std::printf("Q parforx st %d %d %lld %lld %d %u %d %u %u %d %d %zu %d %zu%s => S %zu ok\n", bits, sg, (long long)c.start, (long long)c.stop, c.chunkMode,
+                c.maxThreads, c.wait ? 1 : 0, c.minItems, c.g, c.pool, recursive, prevStates, c.reuseState ? 1 : 0, tri.size(), ti.c_str(), states.size());
   }
   if (gProp == "C48") {
     int bound = (int)std::max<uint32_t>(c.maxThreads > 0x7fffffffu ? 1 : c.maxThreads, 1);
@@ -199,6 +218,10 @@ static void sampleType(vh::SplitMix& rng, long long count, const char* tname, in
     c.minItems = rng.below(3) == 0 ? (uint32_t)rng.range(2, 40) : 1;
     c.g = rng.below(3) == 0 ? (uint32_t)rng.range(2, 16) : 1;
     c.pool = (int)rng.below(5);
+    if (gProp == "C14" && rng.below(10) == 0 && len >= 40) {   // > 16 workers: multi-group dynamic path
+      c.pool = rng.coin() ? 17 : 20; c.maxThreads = 0x7fffffffu; c.minItems = 1;
+      if (c.chunkMode == -1) { if (len <= 5000) c.chunkMode = (int)rng.range(1, 3); else { c.chunkMode = 0; c.wait = false; } }
+    }
     c.nested = rng.below(7) == 0;
     c.fromWorker = rng.below(4) == 0;
     c.useCts = rng.below(3) == 0;
